@@ -19,7 +19,9 @@ Chains == <<
   <<"wide", "base64">>, <<"wide", "base64offset">>, <<"wide", "base64offset", "contains">>,
   <<"utf16", "base64">>, <<"utf16", "base64offset">>,
   <<"utf16be", "base64">>, <<"utf16be", "base64offset">>,
-  <<"wide">>, <<"utf16">>, <<"utf16be">> >>
+  <<"wide">>, <<"utf16">>, <<"utf16be">>,
+  \* utf16le: the name the Sigma specification gives the wide modifier (a library that does not know it rejects it)
+  <<"utf16le">>, <<"utf16le", "base64">>, <<"utf16le", "base64offset">> >>
 \* payload p is a sequence of literal characters; its source text escapes what must be escaped
 Cases == {[payload |-> p, src |-> RefPlain(p), chain |-> Chains[Shard]] : p \in Payloads}
 ASSUME LET S == SetToSeq(Cases)
